@@ -415,10 +415,14 @@ def s_steps(lasts):
 
 
 def _coordinator_ok(hrows, start_row):
-    """the node started its instance while ITS OWN membership view flagged it coordinator (last Members answer before the start)"""
+    """the node started its instance after ITS OWN membership view had flagged it coordinator: some Members answer on that node before
+    the precondition read of the start named the node itself (answers in between may belong to calls forwarded by other nodes). A node
+    whose view never flagged it (no coordinator in the view, view = [self]) does not qualify."""
     i = hrows.index(start_row)
-    views = [r for r in hrows[:i] if r["ev"] == "op" and r["op"] == "Members" and r["n"] == start_row["n"] and r["res"] >= 0]
-    return bool(views) and views[-1]["own"] == start_row["n"]
+    checks = [j for j, r in enumerate(hrows[:i]) if r["ev"] == "op" and r["op"] == "ActorExists" and r["n"] == start_row["n"]]
+    upto = checks[-1] if checks else i
+    return any(r["ev"] == "op" and r["op"] == "Members" and r["n"] == start_row["n"] and r["res"] >= 0 and r["own"] == start_row["n"]
+               for r in hrows[:upto])
 
 
 def _bad_removes(hrows, upto):
@@ -496,11 +500,13 @@ def run_c36(ctx, pid):
 
     tables = [stable("ac", "a", "c", 2), stable("aa", "a", "b", 2, faults=1, name="aa_ab2f"), stable("abc", "a", "b", 2),
               stable("ba", "b", "a", 2, kinds="rr", rec0="D", faults=1, name="relocf_ba"),
-              stable("acb", "a", "c", 2, kinds="srs", rec0="D", name="mixr_acb"),
-              stable("abc", "a", "b", 2, faults=1, lead={"C": "-"}, solo="c", name="solo_abc"),
+              stable("ab", "a", "b", 2, kinds="sr", rec0="D", name="mixr_ab"),
+              stable("ac", "a", "b", 1, faults=1, lead={"C": "-"}, solo="c", name="solo_ac1"),
               stable("ab", "a", "b", 1, lead={"B": "-"}, name="nocoord_ab")]
     if not quick:
-        tables += [stable("bc", "a", "b", 3), stable("abc", "a", "c", 3), stable("acc", "a", "c", 3), stable("bbc", "a", "c", 3), stable("cab", "b", "a", 3),
+        tables += [stable("acb", "a", "c", 2, kinds="srs", rec0="D", name="mixr_acb"),
+                   stable("abc", "a", "b", 2, faults=1, lead={"C": "-"}, solo="c", name="solo_abc"),
+                   stable("bc", "a", "b", 3), stable("abc", "a", "c", 3), stable("acc", "a", "c", 3), stable("bbc", "a", "c", 3), stable("cab", "b", "a", 3),
                    stable("acb", "a", "c", 2, kinds="ssr", rec0="D", faults=1, lead={"B": "-"}, name="mix_acb")]
     fut_design = [pool.submit(tlc, tb, [], "repaired", must_hold=True, workers=2) for tb in tables]
     # without a second coordinator the code's NonAtomicPublish branch alone is harmless: a node whose view flags nobody must not spawn
